@@ -351,7 +351,11 @@ Definition set_offline (c : client) : client := c <| k_online := false |>.
 
 Definition to_offline (c : client) : M client :=
   match k_wsem c with
-  | WsClosed => ret c
+  | WsClosed =>
+    (* the client is closed; a writer that met a closed-connection error may have left the
+       connection open: close it, and let the next ReadSlices go through connect (ErrClosed) *)
+    _ <- tell (QClose (conn_of c)) ;;
+    ret (c <| k_rconn := None |>)
   | _ =>
     _ <- tell (QClose (conn_of c)) ;;
     let c := set_offline c <| k_wsem := WsPending |> <| k_rconn := None |> <| k_big := None |>
